@@ -187,7 +187,8 @@ def record_model(text: str, model_id: str, backends=("python", "jax", "c"), sche
                 calls.append(("monitor_values", cg.monitor_values(), {}))
                 if missing_values:
                     calls.append(("missing_values", cg.missing_values(missing_values), {"requested": dict(missing_values)}))
-                for sc in schemes:
+                # (with removal the schemes are asked for in the opposite order: the order must not matter)
+                for sc in (tuple(reversed(schemes)) if ru else schemes):
                     kw = {}
                     if "rush_larsen" in sc:
                         # the delta passed varies with model, scheme and option so that "honoured" is observable
